@@ -74,10 +74,15 @@ func runGenerated(t *rapid.T, c *ev.Case, md mode, o runOpts) {
 					c.Excluded("B:two-or-more-tag-groups")
 				case q.classC && o.skipC:
 					c.Excluded("C:groups-under-different-shard-keys")
+				case q.classH && o.skipH:
+					c.Excluded("H:full_series-hint-with-tags-beyond-the-shard-key")
 				default:
 					c.Excluded("D:regex-source-over-differently-sharded-measurements")
 				}
 				continue
+			}
+			if q.hint {
+				c.Class("q:full_series-hint")
 			}
 			if q.hasOr {
 				c.Class("q:or")
@@ -197,5 +202,12 @@ func TestPruneRegexSource(t *testing.T) {
 func TestPruneRange(t *testing.T) {
 	rapid.Check(t, ev.Prop(prop, "prune_range", func(t *rapid.T, c *ev.Case) {
 		runGenerated(t, c, mode{sharding: "range", cond: "full"}, runOpts{skipA: skipA, skipB: skipB, skipC: skipC, skipD: skipD})
+	}))
+}
+
+// the hint-query pruning entry point (TargetShardsHintQuery): /*+ full_series */ with the complete tag set of a written series
+func TestPruneHintFullSeries(t *testing.T) {
+	rapid.Check(t, ev.Prop(prop, "prune_hint_full_series", func(t *rapid.T, c *ev.Case) {
+		runGenerated(t, c, mode{sharding: "hash", cond: "hint"}, runOpts{skipH: skipH})
 	}))
 }
